@@ -381,8 +381,41 @@ def s1_zeroize():
         yield 'zeroize/crate_%s/same_bounds_dup' % ctag, st('S', named(1, [['T']]), [dw([zmeta('Zeroize', c), 'Zeroize'])])
 
 
+def s1_stage_a():
+    """the attribute macro: `crate` option, visited marker, printing of the whole item"""
+    f2 = named(2, [['T'], ['u8']])
+    cr = lambda e: dw([('NV', P('crate'), e)])
+    yield 'stagea/crate_unnecessary', st('S', f2, [cr(('EPath', (True, ['derive_where']))), dw(['Clone'])])
+    yield 'stagea/crate_unnecessary_str', st('S', f2, [cr(('EStr', '"::derive_where"', (True, ['derive_where']))), dw(['Clone'])])
+    yield 'stagea/crate_no_lead', st('S', f2, [cr(('EPath', (False, ['derive_where']))), dw(['Clone'])])
+    yield 'stagea/crate_dup', st('S', f2, [cr(('EPath', (False, ['a']))), cr(('EPath', (False, ['b']))), dw(['Clone'])])
+    yield 'stagea/crate_dup_same', st('S', f2, [cr(('EPath', (False, ['a']))), dw(['Clone']), cr(('EPath', (False, ['a'])))])
+    yield 'stagea/crate_bad_str', st('S', f2, [cr(('EStr', '"1 +"', None)), dw(['Clone'])])
+    yield 'stagea/crate_other_expr', st('S', f2, [cr(('EOther', ['1'])), dw(['Clone'])])
+    yield 'stagea/crate_bare', st('S', f2, [dw(['crate']), dw(['Clone'])])
+    yield 'stagea/crate_list', st('S', f2, [dw([('L', P('crate'), [mpath('x')], None)]), dw(['Clone'])])
+    yield 'stagea/crate_long', st('S', f2, [cr(('EPath', (True, ['a', 'b', 'c']))), dw(['Clone', 'Debug'])])
+    yield 'stagea/crate_after', st('S', f2, [dw(['Clone']), cr(('EStr', '"my_dw"', (False, ['my_dw'])))])
+    yield 'stagea/visited', st('S', f2, [dw(['Clone']), ('Other', (True, ['derive_where', 'derive_where_visited']), [])])
+    yield 'stagea/visited_first', st('S', f2, [('Other', (True, ['derive_where', 'derive_where_visited']), []), dw(['Clone'])])
+    yield 'stagea/visited_custom', st('S', f2, [cr(('EPath', (False, ['dw_']))), dw(['Clone']), ('Other', (False, ['dw_', 'derive_where_visited']), [])])
+    yield 'stagea/visited_other_crate', st('S', f2, [cr(('EPath', (False, ['dw_']))), dw(['Clone']), ('Other', (True, ['derive_where', 'derive_where_visited']), [])])
+    yield 'stagea/qualified_second', st('S', f2, [dw(['Clone']), ('Other', (True, ['derive_where', 'derive_where']), ['(', 'Debug', ')'])])
+    yield 'stagea/other_attrs', item(('Struct', 'Named', [field('a', ['T'], [('Other', P('doc'), ['=', '"field"']), sub('skip')], ['pub']), field('b', ['u8'], [('Other', P('cfg'), ['(', 'all', '(', ')', ')'])])]),
+                                      'S', [('Other', P('doc'), ['=', '"item"']), dw(['Debug']), ('Other', P('allow'), ['(', 'dead_code', ')']), repr_attr('C')], GT, ['pub', '(', 'crate', ')'])
+    yield 'stagea/enum_full', item(('Enum', [variant('A', 'Named', [field('x', ['T'], [sub(skip_meta('skip', ['Debug']))], ['pub'] if False else [])], [('Other', P('doc'), ['=', '"v"']), sub('default')], disc=None),
+                                             variant('B', 'Unnamed', unnamed(2, [['T'], ['u8']], [[sub('skip')], []]), [], disc=(['7'], 7)), variant('C', 'Unit', [], [('Other', P('allow'), ['(', 'unused', ')'])])]),
+                                    'E', [repr_attr('u8'), dw(['Debug', 'Default', 'PartialOrd'])],
+                                    generics([('Lt', 'a', []), tparam('T', ["'a", '+', 'Clone'], ['u8']), ('Const', 'N', ['usize'], ['3'])], ([['T', ':', 'Sized']], True), True))
+    yield 'stagea/tuple_where', item(('Struct', 'Unnamed', unnamed(2, [['T'], ['&', "'a", 'u8']], [[sub('skip')], []])), 'S', [dw(['Debug'])],
+                                      generics([('Lt', 'a', []), tparam('T')], ([['T', ':', "'a"]], False)))
+    yield 'stagea/unit_where', item(('Struct', 'Unit', []), 'S', [dw(['PartialEq']), dw(['incomparable'])], generics([tparam('T')], ([['T', ':', 'Copy']], False)))
+    yield 'stagea/union', item(('Union', [field('a', ['T'], [('Other', P('doc'), ['=', '"u"'])], ['pub']), field('b', ['u8'])]), 'U', [dw(['Clone', 'Copy']), repr_attr('C')], GT, ['pub'])
+    yield 'stagea/error_keeps_attrs', st('S', named(2, [['T'], ['u8']], [[sub('skip'), ('Other', P('doc'), ['=', '"x"'])], [sub(skip_meta('skip', ['Debug']))]]), [dw(['Foo']), ('Other', P('allow'), ['(', 'dead_code', ')'])])
+
+
 def s1_all():
-    gens = [s1_basic, s1_bounds, s1_attr_split, s1_skip, s1_incomparable, s1_discriminant, s1_default, s1_names, s1_zeroize]
+    gens = [s1_stage_a, s1_basic, s1_bounds, s1_attr_split, s1_skip, s1_incomparable, s1_discriminant, s1_default, s1_names, s1_zeroize]
     for g in gens:
         for x in g():
             yield x
